@@ -44,10 +44,12 @@ AnswerTarget(e) ==
     LET xs == {x \in out : x.b = e.b /\ x.bs = e.bs}
     IN IF xs # {} THEN (CHOOSE x \in xs : TRUE).r ELSE 0
 
-\* a PREPARE that reaches the backend on behalf of a request waiting for a re-prepare on that connection
+\* a PREPARE that reaches the backend on behalf of a request waiting for a re-prepare on that connection; the hook's
+\* attribution stands unless it names no request or a finished one (a finished request that is forked may still
+\* re-prepare on its second path)
 TakeTarget(e) ==
     LET ws == {q \in DOMAIN rq : "prep" \in rq[q].must /\ rq[q].ab = e.b /\ rq[q].ph = "exec"}
-    IN IF e.op = "PREPARE" /\ ws # {} /\ (e.r = 0 \/ (e.r \in DOMAIN rq /\ rq[e.r].ph = "done"))
+    IN IF e.op = "PREPARE" /\ ws # {} /\ (e.r = 0 \/ (e.r \in DOMAIN rq /\ rq[e.r].ph = "done" /\ ~rq[e.r].fork))
        THEN CHOOSE q \in ws : \A q2 \in ws : q <= q2
        ELSE e.r
 
